@@ -146,7 +146,9 @@ def plan(pid, tier, seed):
         P["need"] = dict(accepted=100, reads=100)
     elif pid == "C02":
         mc("MC_Seq", "MC_C02_q.cfg" if q else "MC_C02_t.cfg", 1200 if q else 12000, add_reads)
-        histories(60 if q else 600, 30 if q else 100, dict(flush=0.4, sync_wait=1.0, reopen=0.5, reads=0.2, big=True), rb=True)
+        # the configuration (chunk AND cache limits) differs between runs
+        histories(60 if q else 600, 30 if q else 100,
+                  dict(flush=0.4, sync_wait=1.0, reopen=0.5, reads=0.2, big=True, small_cache=True, rb=True), rb=True)
         P["need"] = dict(opens=200)
     elif pid == "C06":
         mc("MC_Seq", "MC_C06_q.cfg" if q else "MC_C06_t.cfg", 1500 if q else 15000, add_reads, pick=pick_rejects)
@@ -405,8 +407,11 @@ def run_check(pid, tier, seed, keep=False):
     # ---- (R) replay in the real code, (T) record
     traces_s, bad_s = vlib.run_harness(spec_scripts, wd, name="spec", shards=10) if spec_scripts else ([], [])
     traces_r, bad_r = vlib.run_harness(rand_scripts, wd, name="rand", shards=6) if rand_scripts else ([], [])
-    if bad_s or bad_r:
-        raise vlib.ToolError("harness process failed: %s" % (bad_s + bad_r)[:3])
+    lost = bad_s + bad_r
+    if len(lost) > max(3, (len(spec_scripts) + len(rand_scripts)) // 50):
+        raise vlib.ToolError("the harness process died or hung on %d scripts: %s" % (len(lost), lost[:3]))
+    if lost:
+        print("NOTE: %d scripts killed or hung the harness process and were left out: %s" % (len(lost), [x[0] for x in lost][:10]))
 
     t_run = time.time() - t0
     # ---- judge: TraceMonitor on everything, TraceStore on the spec-driven runs
@@ -512,6 +517,7 @@ def run_check(pid, tier, seed, keep=False):
             spec_actions_replayed=sorted(acts),
             drift=[dict(run=d["run"], seq=d["seq"], why=d["why"]) for d in drift[:5]],
             randomized_runs=len(rand_scripts),
+            scripts_lost_to_harness_death=[dict(id=x[0], why=x[1][:120]) for x in lost],
             violations_of_other_properties_seen=others,
             known_findings_hit={k: len(v) for k, v in knownhits.items()},
             notes_by_kind=count_by(notes, "k"),
